@@ -13,9 +13,11 @@ LEVEL_TEXT = ("Theorems for every list of bytes: recv is total, consumes exactly
               "gives a connection error after exactly 7 bytes for size < 7 / > msize / > 4 MiB, never waits once the frame is complete, reads into buffers "
               "totalling at most max 7 (min msize 4MiB), delivers exactly the frame's own bytes, never delivers a strict prefix of a frame, and the receive loop "
               "over any concatenation of well-delimited frames (delivered or rejected in any mix) yields exactly one event per frame (one Rlerror per rejected frame) "
-              "and stops at a refused size field. Every run re-checks the proofs and compares the model with the real recv / Server.Handle.")
+              "and stops at a refused size field; server level: one reply per frame under the predicted tag (unknown type: the frame's tag, body-level rejection: NOTAG). "
+              "Instantiated with C01's layouts and decoder (Frame/Instantiate.v): the two models of recv agree on every stream, a delivered message is the decoding of exactly the "
+              "frame's body, and every frame send writes is delivered with exactly the encoded field values (up to mnorm). Every run re-checks the proofs and compares the model with the real recv / Server.Handle.")
 LEVEL_NOTE = ("Trusted: Coq kernel + vm_compute; the hand model Frame/Model.v (tied by the differential only); FrameGen.v (registry read from messages.go, also compared "
-              "with the run-time registry); the body decoder is a parameter of the model (its verdict is taken from calling m.decode directly, C01 owns field values). "
+              "with the run-time registry); the body decoder is a parameter of the generic theorems and is instantiated with Codec/ (C01) in Frame/Instantiate.v; in the differential its verdict is taken from calling m.decode directly. "
               "Go-level panic freedom and real peak allocation are observed by the harness, not proved (a panic or hang is reported as a violation).")
 DESIGN_REF = "6/C02"
 ASSUMPTIONS = [
@@ -30,7 +32,7 @@ TRUSTED_BASE = [
     "hand-written model Frame/Model.v, tied by harness/p9/c02_recv_test.go + Frame/FrameCases.v",
 ]
 
-SHARD = 200
+SHARD = 110
 
 
 def nlist(a):
@@ -102,7 +104,8 @@ def evaluate(ctx, pid, obs, what):
     texts = []
     # balance shards by size (streams differ a lot in length)
     order = list(range(len(obs)))
-    shards = [order[i:i + SHARD] for i in range(0, len(order), SHARD)]
+    nsh = max(1, (len(order) + SHARD - 1) // SHARD)
+    shards = [order[k::nsh] for k in range(nsh)]    # round robin: long streams are spread over the shards
     for sh in shards:
         cases = ";\n  ".join("(%s)" % to_case(obs[i]) for i in sh)
         texts.append(HEADER + "Definition cases : list fcase := [\n  %s\n].\n"
